@@ -141,6 +141,11 @@ func (s *Server) refreshConfiguration(ctx context.Context) {
 	if s.client == nil || !s.supportsConfiguration {
 		return
 	}
+	// Refreshes started by successive notifications run concurrently. Pulling and
+	// applying must be one step, or an older pull can be applied after a newer
+	// one (and the two writers of cliClient race).
+	s.refreshMu.Lock()
+	defer s.refreshMu.Unlock()
 	result, err := s.client.Configuration(ctx, &protocol.ConfigurationParams{
 		Items: []protocol.ConfigurationItem{
 			{Section: "hledger"},
